@@ -485,6 +485,31 @@ func (e *Exec) Finish(closeAtEnd bool) {
 	for _, p := range e.Pubs {
 		p.Open()
 	}
+	// With every gate open each call must return. A call stuck behind a library mutex would make synctest.Wait
+	// (and the end of the bubble) hang, because synctest does not count Mutex.Lock as durably blocked; so first
+	// wait heuristically (up to 2 s of real time; normal cost: microseconds) and bail out of the process with a
+	// marked panic that the driver confirms by replaying the case in fresh processes.
+	allDone := func() bool {
+		for _, o := range e.Ops {
+			if !o.Done() {
+				return false
+			}
+		}
+		return true
+	}
+	e.W.SettleUntilCap(allDone, 10000)
+	if !allDone() {
+		msg := "VERIF-NORETURN:"
+		for _, o := range e.Ops {
+			if !o.Done() {
+				msg += fmt.Sprintf(" %s call issued at step %d has not returned 2 s after every gate was opened;", o.Kind, o.Step)
+			}
+		}
+		if e.Viol != "" {
+			msg += " earlier: " + e.Viol
+		}
+		panic(msg)
+	}
 	synctest.Wait()
 	e.contender = false
 	e.afterSettle()
